@@ -228,6 +228,7 @@ fn small_scope_cfg(toks: Vec<Tok>, variant: usize) -> GenCfg {
         with_prints: false,
         with_data: false,
         max_depth: 3,
+        stepping: false,
     }
 }
 
@@ -408,7 +409,7 @@ pub fn run(ctx: &Ctx) {
 pub fn gen_to_json(g: &GenCfg) -> serde_json::Value {
     let t = |v: &Vec<Tok>| v.iter().map(|t| json!([t.kind, t.a, t.b])).collect::<Vec<_>>();
     json!({"pre": t(&g.toks_pre), "procs": g.procs.iter().map(t).collect::<Vec<_>>(), "main": t(&g.toks_main), "start_pos": g.start_pos,
-        "label_before_proc": g.label_before_proc, "trailing_label": g.trailing_label, "with_prints": g.with_prints, "with_data": g.with_data, "max_depth": g.max_depth})
+        "label_before_proc": g.label_before_proc, "trailing_label": g.trailing_label, "with_prints": g.with_prints, "with_data": g.with_data, "max_depth": g.max_depth, "stepping": g.stepping})
 }
 
 pub fn gen_from_json(v: &serde_json::Value) -> GenCfg {
@@ -425,6 +426,7 @@ pub fn gen_from_json(v: &serde_json::Value) -> GenCfg {
         with_prints: v["with_prints"].as_bool().unwrap_or(false),
         with_data: v["with_data"].as_bool().unwrap_or(false),
         max_depth: v["max_depth"].as_u64().unwrap_or(3) as u8,
+        stepping: v["stepping"].as_bool().unwrap_or(false),
     }
 }
 
